@@ -501,7 +501,7 @@ func (ww *WW) StepEdge(m *MW) {
 		rest := W.NewOutputs(Split(SumH(ins)-fee-1), ks.ID)
 		ps, r := m.User.Swap(mint, ins, append([]*HOutput{o}, rest...))
 		if !r.OK() {
-			if strings.Contains(r.Detail, "already signed") {
+			if r.Code == 10002 || strings.Contains(r.Detail, "already signed") {
 				return
 			}
 			W.Book.Violate("C10.edge_refused", fmt.Sprintf("secretlen=%d", len(c.secret)), "mint refuses to sign an output for an edge value (secret len %d): %v", len(c.secret), r)
